@@ -234,6 +234,22 @@ def histories(draw, spec, min_ops=6, max_ops=20, n_events=3, delays=False, advan
 
 
 @st.composite
+def faults(draw, ops, p=0.3, kinds=('inv', 'inv', 'ipre', 'ipost', 'iboom', 'iboom')):
+    """fault points: [[op index of a step (never the first one), kind]], at most two.
+
+    'inv'   every state invariant is false at the end of that macro step;
+    'ipre' / 'ipost'  the pre / postcondition of every internal transition is false in that step;
+    'iboom' the action of every internal transition raises at its end in that step.
+    All of them leave a legal, stable configuration behind (DESIGN.md 4, core)."""
+    idx = [i for i, o in enumerate(ops) if o[0] == 'step'][1:]
+    if not idx or draw(st.floats(0, 1)) >= p:
+        return []
+    n = draw(st.integers(1, min(2, len(idx))))
+    chosen = draw(st.lists(st.sampled_from(idx), min_size=n, max_size=n, unique=True))
+    return [[i, draw(st.sampled_from(kinds))] for i in sorted(chosen)]
+
+
+@st.composite
 def with_contracts(draw, spec, p=0.5, max_each=2):
     """attach abstract contract annotations c_pre/c_post/c_inv (lists of unique condition ids)"""
     cid = [0]
